@@ -6,9 +6,11 @@ mod c01;
 mod c02;
 mod c03;
 mod c05;
+mod c06;
 mod c08;
 mod c11;
 mod c12;
+mod c14;
 mod c15;
 mod c16;
 mod c18;
@@ -85,6 +87,8 @@ fn main() {
         "c18-apply" => c18::apply(&ctx),
         "c01-source" => c01::run(&ctx),
         "c02-optimiser" => c02::run(&ctx),
+        "c06-classify" => c06::run(&ctx),
+        "c14-tracing" => c14::run(&ctx),
         "c02-show" => c02::show(&ctx),
         "c02-one" => c02::one(&ctx),
         other => {
